@@ -60,6 +60,17 @@ def check_case(case):
         rb = observe.run(tb, opt, name="a")
         if not ra["error"] and not rb["error"]:
             return [{"clause": "union-runs-without-error", "detail": "union: %r" % (ru["error"],)}], {"labels": labels}
+        # a part that fails where it stands but runs next to the origin fails because of its position only
+        for part, text, r in (("A", ta, ra), ("B", tb, rb)):
+            if not r["error"]:
+                continue
+            ents = pdbio.parse(text)
+            lo = pdbio.bbox(ents)[0]
+            home = pdbio.write(pdbio.move(ents, pdbio.ROTATIONS[0], tuple(-x for x in lo)))
+            rh = observe.run(home, opt, name="a")
+            if not rh["error"]:
+                return [{"clause": "position-raises", "detail": "part %s runs next to the origin but raises where it "
+                         "stands (bounding box from %r): %r" % (part, lo, r["error"])}], {"labels": labels}
         return [], {"labels": labels + ["part-error"]}
     nontrivial = True
     for part, text in (("A", ta), ("B", tb)):
